@@ -140,6 +140,65 @@ fn work<F: Function + Clone>(f: &F, pts: &[[f32; 3]]) -> Solo {
     }
 }
 
+/// Several threads simplify one shared function over and over with two
+/// alternating traces and evaluate each child at a point of its own box:
+/// whatever a simplification consults or caches through the shared handle
+/// must not hand a thread the result that belongs to another trace.
+fn simplify_storm<F: Function + MathFunction + Clone + 'static>(name: &str) {
+    let f: F = build();
+    let n = f.vars().len();
+    let mut ie = F::new_interval_eval();
+    let it = f.interval_tape(Default::default());
+    // box A: inside the sphere; box B: far outside, near the slab's plane
+    let boxes = [
+        [(0.05f32, 0.1f32), (0.05, 0.1), (0.05, 0.1)],
+        [(0.9, 1.0), (0.9, 1.0), (-0.2, -0.1)],
+    ];
+    let mut cases = vec![];
+    for b in boxes {
+        let v: Vec<Interval> =
+            b[..n.min(3)].iter().map(|(l, h)| Interval::new(*l, *h)).collect();
+        let (_o, tr) = ie.eval(&it, &v).unwrap();
+        let tr = tr.expect("both boxes decide some choice").clone();
+        let p: Vec<Vec<f32>> = b[..n.min(3)].iter().map(|(l, _)| vec![*l]).collect();
+        let c = f
+            .simplify(&tr, Default::default(), &mut Default::default())
+            .unwrap();
+        let ct = c.float_slice_tape(Default::default());
+        let mut fe = F::new_float_slice_eval();
+        let o = fe.eval(&ct, &p).unwrap();
+        let want: Vec<u32> = (0..o.len()).map(|i| o[i][0].to_bits()).collect();
+        cases.push((tr, p, want, c.size()));
+    }
+    assert_ne!(cases[0].3, cases[1].3, "the two traces must give different children");
+    let cases = Arc::new(cases);
+    let hs: Vec<_> = (0..3)
+        .map(|t| {
+            let f = f.clone();
+            let cases = cases.clone();
+            std::thread::spawn(move || {
+                let mut fe = F::new_float_slice_eval();
+                for r in 0..10 {
+                    let (tr, p, want, size) = &cases[(r + t) % 2];
+                    let c = f
+                        .simplify(tr, Default::default(), &mut Default::default())
+                        .unwrap();
+                    assert_eq!(c.size(), *size, "thread {t} round {r}: child of another trace");
+                    let ct = c.float_slice_tape(Default::default());
+                    let o = fe.eval(&ct, p).unwrap();
+                    let got: Vec<u32> =
+                        (0..o.len()).map(|i| o[i][0].to_bits()).collect();
+                    assert_eq!(&got, want, "thread {t} round {r}: wrong child values");
+                }
+            })
+        })
+        .collect();
+    for h in hs {
+        h.join().unwrap();
+    }
+    println!("{name} storm: ok");
+}
+
 fn scenario<F: Function + MathFunction + Clone + 'static>(name: &str) {
     let f: F = build();
     let threads = 3;
@@ -311,8 +370,13 @@ fn nalgebra_identity() -> nalgebra::Matrix4<f32> {
 
 fn main() {
     let which = std::env::args().nth(1).unwrap_or_default();
+    if which == "storm" {
+        simplify_storm::<VmFunction>("vm255");
+        return;
+    }
     if which != "rayon" {
         scenario::<VmFunction>("vm255");
+        simplify_storm::<VmFunction>("vm255");
         scenario::<GenericVmFunction<3>>("vm3");
     }
     if which != "tapes" {
